@@ -2206,7 +2206,16 @@ impl<'data> platform::ObjectFile<'data> for File<'data> {
         symbol: &SymtabEntry,
         index: object::SymbolIndex,
     ) -> Result<Option<object::SectionIndex>> {
-        Ok(self.symbols.symbol_section(LittleEndian, symbol, index)?)
+        let section_index = self.symbols.symbol_section(LittleEndian, symbol, index)?;
+        if let Some(section_index) = section_index {
+            ensure!(
+                section_index.0 < self.sections.len(),
+                "Symbol {} has invalid section index {}",
+                index.0,
+                section_index.0
+            );
+        }
+        Ok(section_index)
     }
 
     fn dynamic_tags(&self) -> Result<&'data [DynamicEntry]> {
